@@ -93,7 +93,8 @@ class Wire:
         self.iface.send_msg = self.send_msg
         self.iface.send_bundle = self.send_bundle
         self.nested = False
-        if hasattr(self.iface, '_socket'):      # rt: nothing leaves the process
+        self.rt = hasattr(self.iface, '_socket')
+        if self.rt:      # rt: nothing leaves the process
             self.iface._send = lambda msg, target: None
 
     def send_msg(self, target, *args):
@@ -113,13 +114,22 @@ class Wire:
             return self.orig_bundle(target, time, *elements)
         t = self.main.current_tt._seconds
         dgram = self.iface._build_bundle(t, [time, *elements]).dgram
+        msgs = read_packet(dgram)
         self.log.append({'k': 'bundle', 't': -1 if time is None else int(round(time * 1000)),
-                         'm': read_packet(dgram), 'port': target[1]})
+                         'm': msgs, 'port': target[1]})
         self.nested = True
         try:
-            return self.orig_bundle(target, time, *elements)
+            r = self.orig_bundle(target, time, *elements)
         finally:
             self.nested = False
+        if self.rt:
+            # stub server: every '/sync id' is answered with '/synced id', as a datagram from the server's address
+            # handed to the interface's request handler (which dispatches it on SystemClock like a received one)
+            for m in msgs:
+                if m['a'] == '/sync' and m['g'] and m['g'][0]['t'] == 'i':
+                    reply = b'/synced\0,i\0\0' + struct.pack('>i', m['g'][0]['i'])
+                    self.iface._handle_request(reply, target)
+        return r
 
     def drain(self):
         out, self.log = self.log, []
@@ -367,7 +377,21 @@ class Runner:
                 ids = []
         self.record(op, ids, exc)
 
-    def run(self, hist):
+    def sync(self):
+        """`yield from server.sync()`; the id of the /sync that went out is an observation (ids)"""
+        exc = ''
+        try:
+            yield from self.s.sync()
+        except Boom:
+            raise
+        except Exception as ex:
+            exc = type(ex).__name__
+        em = self.wire.drain()
+        ids = [x['i'] for w in em for m in w['m'] if m['a'] == '/sync' for x in m['g'][:1] if x['t'] == 'i']
+        self.wire.log = em              # record() drains again
+        self.record({'op': 'sync'}, ids, exc)
+
+    def run_gen(self, hist):
         for op in hist:
             if op['op'] == 'bind':
                 self.record({'op': 'bind_enter'}, [], '')
@@ -377,7 +401,10 @@ class Runner:
                         for k, inner in enumerate(op['body']):
                             if k == op.get('raise_at', -1):
                                 raise Boom()
-                            self.step(inner)
+                            if inner['op'] == 'sync':
+                                yield from self.sync()
+                            else:
+                                self.step(inner)
                         if op.get('raise_at', -1) == len(op['body']):
                             raise Boom()
                 except Boom:
@@ -385,8 +412,39 @@ class Runner:
                 except Exception as ex:         # raised by the block exit itself: recorded, judged by the spec
                     exc = type(ex).__name__
                 self.record({'op': 'bind_exit', 'n': [raised]}, [], exc)
+            elif op['op'] == 'sync':
+                yield from self.sync()
             else:
                 self.step(op)
+
+    def run(self, hist, rt_routine=None):
+        """histories with a sync need a routine in RT mode (sync waits for '/synced' on a clock); everything else,
+        and NRT (where Server.sync only yields), is driven from the main thread"""
+        if rt_routine is None:
+            for _ in self.run_gen(hist):
+                pass
+            return self.ev
+        main, Routine = rt_routine
+        done = []
+
+        def task():
+            try:
+                yield from self.run_gen(hist)
+                done.append('')
+            except BaseException as ex:     # noqa: reported to the caller as a driver error
+                import traceback
+                done.append(traceback.format_exc()[-1500:])
+            finally:
+                main.resume()
+
+        r = Routine.run(task)
+        if not main.wait(20):
+            r.stop()
+            self.wire.drain()
+            self.ev.append({'op': 'timeout', 'h': 0, 'tk': 'none', 't': 0, 'act': 'addToHead', 'def': '', 'a': [], 'n': [],
+                            'cm': 'none', 'ids': [], 'exc': '', 'em': []})
+        elif done and done[0]:
+            raise RuntimeError(done[0])
         return self.ev
 
 
@@ -400,7 +458,7 @@ def main():
     sc3.init(mode)
     import sc3.base.main as bm
     from sc3.synth import server as srv, bus, buffer as buf, node as nod
-    from sc3.base import netaddr as nad
+    from sc3.base import netaddr as nad, stream as stm
     mods = dict(srv=srv, bus=bus, buf=buf, nod=nod)
     wire = Wire(bm.main)
     servers = {}
@@ -422,11 +480,12 @@ def main():
         srv.Server.default = s
         wire.drain()
         cfg = dict(client=c['client'], logins=c['logins'], nbuf=c['nbuf'], ncb=c['ncb'], nab=c['nab'], io=4,
-                   initnode=c['initnode'], latency=int(round(s.latency * 1000)), defgroup=s.default_group.node_id,
+                   initnode=c['initnode'], rt=1 if mode == 'rt' else 0, latency=int(round(s.latency * 1000)), defgroup=s.default_group.node_id,
                    groups=[g.node_id for g in s._default_groups], port=s.addr.port)
         r = Runner(mods, wire, s, cfg)
+        has_sync = any(o['op'] == 'sync' or any(i['op'] == 'sync' for i in o.get('body', [])) for o in case['hist'])
         try:
-            ev = r.run(case['hist'])
+            ev = r.run(case['hist'], (bm.main, stm.Routine) if (mode == 'rt' and has_sync) else None)
             err = ''
         except Exception as ex:       # a crash of the driver itself is machinery, reported as such by the caller
             import traceback
